@@ -149,6 +149,8 @@ func main() {
 		os.Exit(cmdDev(os.Args[2:]))
 	case "replay":
 		os.Exit(cmdReplay(os.Args[2:]))
+	case "sweep":
+		os.Exit(cmdSweep(os.Args[2:]))
 	case "pegdfa":
 		if os.Args[2] == "stats" {
 			pegStats()
